@@ -21,7 +21,7 @@ ASSUMPTIONS = [
     "single-threaded: the bytes read right after an answer are the bytes the answer was about",
 ]
 MONITORS = "every (meta, hash) obtained through the state cache or carried over by update() compared with hashlib at the same instant"
-REQUIRED_COUNTERS = ["index_update_with_swap_during_md5", "index_md5_on_reused_index", "memfs_batched_queries", "failed_link_checkouts", "failed_create_index_checkouts", "large_file_cases", "index_update_with_reloaded_old_index", "racing_writer_queries", "symlinked_files", "answers_checked", "state_hits_checked", "mutations", "get_vs_get_many_compared", "staging_listings_checked", "index_md5_checked",
+REQUIRED_COUNTERS = ["alias_path_queries", "index_update_with_swap_during_md5", "index_md5_on_reused_index", "memfs_batched_queries", "failed_link_checkouts", "failed_create_index_checkouts", "large_file_cases", "index_update_with_reloaded_old_index", "racing_writer_queries", "symlinked_files", "answers_checked", "state_hits_checked", "mutations", "get_vs_get_many_compared", "staging_listings_checked", "index_md5_checked",
                      "index_update_carried_checked", "injected_rows", "memfs_queries", "batch_boundary_cases", "mutations_between_queries", "ext4_cases"]
 
 ALGOS = ["md5", "sha256", "md5-dos2unix", "blake3"]
@@ -89,6 +89,12 @@ def run_shard(ctx):
             new = data + b"g"
             with open(path, "ab") as f:
                 f.write(b"g")
+            os.utime(path, ns=(st.st_atime_ns, st.st_mtime_ns))
+        elif kind == "truncate-to-zero-keep-mtime":
+            # only the size changes, down to exactly nothing
+            st = os.stat(path)
+            new = b""
+            os.truncate(path, 0)
             os.utime(path, ns=(st.st_atime_ns, st.st_mtime_ns))
         elif kind == "touch":
             new = data
@@ -242,7 +248,7 @@ def run_shard(ctx):
                         victims = rng.sample(paths, rng.randrange(1, min(4, len(paths)) + 1))
                         kind = None
                     for p in victims:
-                        k = kind or rng.choice(["grow", "shrink", "same-size", "same-size", "rename-same-size", "rename-other", "touch", "delete", "rename-keep-mtime-size", "grow-keep-mtime"])
+                        k = kind or rng.choice(["grow", "shrink", "same-size", "same-size", "rename-same-size", "rename-other", "touch", "delete", "rename-keep-mtime-size", "grow-keep-mtime", "truncate-to-zero-keep-mtime"])
                         new = mutate(rng, p, cur[p], k)
                         res.count("mutations")
                         mcount[p] = mcount.get(p, 0) + 1
@@ -260,7 +266,7 @@ def run_shard(ctx):
                         else:
                             cur[p] = new
                     continue
-                q = rng.choice(["hash_file", "hash_file", "get", "get_many", "_get_hashes", "build", "index_md5", "index_update", "inject", "memfs", "racing-writer", "checkout-failed-link", "index-checkout-failed-create"])
+                q = rng.choice(["hash_file", "hash_file", "get", "get_many", "_get_hashes", "build", "index_md5", "index_update", "inject", "memfs", "racing-writer", "checkout-failed-link", "index-checkout-failed-create", "alias-through-dir-symlink"])
                 if batch and q in ("build", "index_md5", "index_update"):
                     q = "get_many"
                 hist.append(["query", q, ""])
@@ -399,12 +405,19 @@ def run_shard(ctx):
                             verify(os.path.join(wdir, *k), e.hash_info.name, e.hash_info.value, "index.update")
                 elif q == "inject" and paths:
                     p = rng.choice(paths)
-                    kind = rng.choice(["legacy-no-version", "version-2", "foreign-algorithm", "garbage"])
+                    kind = rng.choice(["legacy-no-version", "version-2", "version-2-other-algorithm", "foreign-algorithm", "garbage"])
                     hist[-1][2] = kind
                     res.count("injected_rows")
                     data = cur[p]
                     if kind == "foreign-algorithm":
                         state.save(p, fs, env.HI("sha256", H("sha256", data)))
+                    elif kind == "version-2-other-algorithm":
+                        # a row written by a newer format version, under an algorithm other than md5, with a value that is not the file's hash
+                        alg_ = rng.choice(["sha256", "blake3", "sha1"])
+                        state.save(p, fs, env.HI(alg_, "e" * 64))
+                        raw = json.loads(state.hashes.get(p))
+                        raw["version"] = 2
+                        state.hashes[p] = json.dumps(raw)
                     else:
                         state.save(p, fs, env.HI("md5", "f" * 32 if kind == "version-2" else H("md5-dos2unix", data)))
                         raw = json.loads(state.hashes.get(p))
@@ -414,11 +427,13 @@ def run_shard(ctx):
                             raw["version"] = 2
                         state.hashes[p] = json.dumps(raw) if kind != "garbage" else "{not json"
                     meta, hi = state.get(p, fs)
-                    if kind in ("version-2", "garbage") and hi is not None:
+                    if kind in ("version-2", "version-2-other-algorithm", "garbage") and hi is not None:
                         res.violation(f"injected-row-returned/{kind}", f"State.get returned a hit for a {kind} row", case=case)
                     if hi is not None:
                         verify(p, hi.name, hi.value, f"State.get/{kind}", hit=True)
-                    for name in ("md5", "md5-dos2unix", "sha256"):
+                    for name in ("md5", "md5-dos2unix", "sha256", "blake3", "sha1"):
+                        if kind == "version-2-other-algorithm" and name in ("md5", "md5-dos2unix"):
+                            continue  # (asking under md5 would overwrite the injected row before the other algorithms are asked)
                         _m, h2 = hash_file(p, fs, name, state=state)
                         if h2.name != name:
                             res.violation(f"wrong-algorithm-returned/after-{kind}", f"asked {name}, got {h2.name}", case=case)
@@ -549,6 +564,38 @@ def run_shard(ctx):
                                                   "in the hash state under the target's hash", case=case, detail={"history": hist[-6:]})
                             else:
                                 verify(pp, "md5", h1.value, "hash_file/after-index-checkout-with-failed-create")
+                elif q == "alias-through-dir-symlink" and paths and not batch:
+                    # `w/lnk/../name` is, for the OS, `<target of lnk>/../name` - not `w/name`; rows saved or looked up through such a
+                    # spelling must be about the file the OS resolves it to
+                    res.count("alias_path_queries")
+                    alt_sub = os.path.join(d, "alt", "sub")
+                    os.makedirs(alt_sub, exist_ok=True)
+                    lnk = os.path.join(wdir, "lnk-dir")
+                    if not os.path.lexists(lnk):
+                        os.symlink(alt_sub, lnk)
+                    p = rng.choice([pp for pp in paths if not os.path.islink(pp)] or paths)
+                    nm = os.path.basename(p)
+                    elsewhere = os.path.join(d, "alt", nm)
+                    other = cur[p] + b"-elsewhere"
+                    with open(elsewhere, "wb") as f:
+                        f.write(other)
+                    alias = os.path.join(wdir, "lnk-dir", "..", nm)
+                    how_ = rng.choice(["save", "save_many", "hash_file"])
+                    if how_ == "save":
+                        state.save(alias, fs, env.HI("md5", H("md5", other)))
+                    elif how_ == "save_many":
+                        state.save_many([(alias, env.HI("md5", H("md5", other)), None)], fs)
+                    else:
+                        _m, ha = hash_file(alias, fs, "md5", state=state)
+                        if ha.value != H("md5", other):
+                            res.violation("stale-hash/alias-through-dir-symlink", "hash_file through the alias is not the hash of the file the OS resolves it to", case=case)
+                    _m, h1 = hash_file(p, fs, "md5", state=state)
+                    verify(p, "md5", h1.value, f"hash_file/after-{how_}-through-alias-of-another-file")
+                    m2, h2 = state.get(alias, fs)
+                    if h2 is not None and h2.value != H("md5", other):
+                        res.violation("stale-hash/alias-through-dir-symlink", "State.get through the alias answers for another file", case=case)
+                    os.unlink(lnk)
+                    note_query([p])
                 elif q == "memfs" and paths:
                     p = rng.choice(paths)
                     _m, _h = hash_file(p, fs, "md5", state=state)  # make sure a local row exists for this path string
